@@ -561,7 +561,19 @@ def install(step_meter=True):
         return _mods
     import importlib
     import logging
-    logging.disable(logging.CRITICAL)      # the solver logs at INFO/ERROR through the root logger
+    if os.environ.get("VERIF_LOGLEVEL") == "DEBUG":
+        # what `-l d` does, minus the output: root logger at DEBUG, records go to a NullHandler
+        root = logging.getLogger()
+        root.handlers[:] = [logging.NullHandler()]
+        root.setLevel(logging.DEBUG)
+        # keep record creation cheap (no stack walk, no thread / process lookups): the records go nowhere anyway
+        logging._srcfile = None
+        logging.logThreads = logging.logProcesses = logging.logMultiprocessing = False
+        MON.count("env.debug_loglevel_workers")
+    else:
+        logging.disable(logging.CRITICAL)      # the solver logs at INFO/ERROR through the root logger
+    if sys.flags.optimize:
+        MON.count("env.optimized_interpreter_workers")
     reverse_dfs = importlib.import_module("reverse_dfs")
     tad = importlib.import_module("tad")
     cr = importlib.import_module("conditionalrewards")
